@@ -75,6 +75,11 @@ type Scenario struct {
 	Flags     string   `json:"flags"` // p006 p007 p016 p018 p021 p023
 	P026      bool     `json:"p026"`
 	P004      bool     `json:"p004"`
+	P010      bool     `json:"p010,omitempty"` // Proposal010Block == height (removeUnusedValidator)
+	P019      bool     `json:"p019,omitempty"` // Proposal019Block == height (removeUnusedValidator1)
+	P025      uint64   `json:"p025,omitempty"` // Proposal025Block (0 = far away): calcDifficulty
+	DiffCount uint64   `json:"diffCount,omitempty"`
+	Working   uint64   `json:"working,omitempty"`
 	Accounts  []Acct   `json:"accounts"`
 	Escrow    []Esc    `json:"escrow,omitempty"`
 	Miners    []MinerS `json:"miners,omitempty"`
@@ -135,6 +140,15 @@ func applyFlags(sc *Scenario, global uint64, useDev bool) {
 	if sc.P004 {
 		c.Proposal004Block = sc.Height
 	}
+	if sc.P010 {
+		c.Proposal010Block = sc.Height
+	}
+	if sc.P019 {
+		c.Proposal019Block = sc.Height
+	}
+	if sc.P025 != 0 {
+		c.Proposal025Block = sc.P025
+	}
 	if sc.P026 {
 		c.Proposal026Block = 0
 	} else {
@@ -191,6 +205,12 @@ func buildParent(sc *Scenario) (common.Hash, account.AccountDatabase) {
 	for _, e := range sc.Escrow {
 		s.SetData(escrowAddr(e.H), unhex(e.Id), bigOf(e.V).Bytes())
 	}
+	if sc.DiffCount != 0 {
+		s.SetData(common.DifficultyAddress, castorBytes(sc), utility.UInt64ToByte(sc.DiffCount))
+	}
+	if sc.Working != 0 {
+		s.SetData(common.DifficultyAddress, common.TotalWorkingMiners, utility.UInt64ToByte(sc.Working))
+	}
 	for _, c := range sc.Contracts {
 		s.SetCode(common.BytesToAddress(unhex(c.Addr)), unhex(c.Code))
 	}
@@ -200,6 +220,13 @@ func buildParent(sc *Scenario) (common.Hash, account.AccountDatabase) {
 		service.MinerManagerImpl.InsertMiner(mm, s)
 	}
 	return commit(s, t), t
+}
+
+func castorBytes(sc *Scenario) []byte {
+	if sc.Castor == "" {
+		return nil
+	}
+	return unhex(sc.Castor)
 }
 
 func commit(s *account.AccountDB, t account.AccountDatabase) common.Hash {
@@ -232,6 +259,9 @@ func mkBlock(sc *Scenario) *types.Block {
 	for _, x := range sc.Txs {
 		tx := &types.Transaction{Source: x.Source, Target: x.Target, Type: x.Type, Nonce: x.Nonce, RequestId: x.Req,
 			ExtraData: x.Extra, Data: x.Data, Hash: common.BytesToHash(unhex(x.Hash))}
+		if x.Type == types.TransactionTypeMinerRefund {
+			tx.Sign = common.BytesToSign(make([]byte, 65)) // the executor only tests Sign != nil
+		}
 		b.Transactions = append(b.Transactions, tx)
 	}
 	return b
@@ -242,6 +272,7 @@ type outcome struct {
 	evicted  []common.Hash
 	receipts []*types.Receipt
 	st       *account.AccountDB
+	txs      []*types.Transaction
 }
 
 func situationOf(sc *Scenario) string {
@@ -258,8 +289,8 @@ func execOnce(sc *Scenario, root common.Hash, t account.AccountDatabase) outcome
 		panic(err)
 	}
 	blk := mkBlock(sc)
-	r, ev, _, rc := core.VerifC01Execute(st, blk, situationOf(sc))
-	return outcome{r, ev, rc, st}
+	r, ev, txs, rc := core.VerifC01Execute(st, blk, situationOf(sc))
+	return outcome{r, ev, rc, st, txs}
 }
 
 // fingerprint: everything the property names — root, receipts (consensus JSON and Msg), evicted list.
@@ -310,6 +341,71 @@ func decodeExtra(extra string) (kind string, ts []tgt) {
 
 func a20(a common.Address) string { return hex.EncodeToString(a[:]) }
 
+// observedBody: hash -> " o <ok> <evicted> <msghex> <k> (<addr> <bal> <nonce>)*" for the EVM transactions of the
+// block being emitted (filled by observeOpaque from prefix executions of the real executor)
+var observedBody = map[string]string{}
+
+func isEvmType(t int32) bool { return t == 200 || t == 188 }
+
+// observeOpaque runs the real executor on every prefix of the executed order that ends in an EVM
+// transaction (situation "testing": no after()) and records status, message and the watched
+// balances / nonces right after that transaction.
+func observeOpaque(sc *Scenario, wl []common.Address) {
+	observedBody = map[string]string{}
+	// a block on which the real Less panics (equal hashes) is answered PANIC by the guarded block op
+	// and `unmodelled` by the driver; nothing to observe then
+	defer func() {
+		if e := recover(); e != nil {
+			observedBody = map[string]string{}
+		}
+	}()
+	has := false
+	for _, x := range sc.Txs {
+		if isEvmType(x.Type) {
+			has = true
+		}
+	}
+	if !has {
+		return
+	}
+	root, t := buildParent(sc)
+	full := execOnce(sc, root, t)
+	byHash := map[string]TxS{}
+	for _, x := range sc.Txs {
+		byHash[x.Hash] = x
+	}
+	for k, tx := range full.txs {
+		if !isEvmType(tx.Type) {
+			continue
+		}
+		pre := *sc
+		pre.Situation = "testing"
+		pre.Txs = nil
+		for _, e := range full.txs[:k+1] {
+			pre.Txs = append(pre.Txs, byHash[hex.EncodeToString(e.Hash.Bytes())])
+		}
+		o := execOnce(&pre, root, t)
+		if len(o.receipts) == 0 {
+			continue
+		}
+		rc := o.receipts[len(o.receipts)-1]
+		ev := 0
+		for _, h := range o.evicted {
+			if h == tx.Hash {
+				ev = 1
+			}
+		}
+		// read the ledger from a fresh AccountDB: objects deleted by Finalise read as nil in the old one
+		fresh, _ := account.NewAccountDB(commit(o.st, t), t)
+		var sb strings.Builder
+		fmt.Fprintf(&sb, " o %d %d %s %d", rc.Status, ev, hx.Hex([]byte(rc.Msg)), len(wl))
+		for _, w := range wl {
+			fmt.Fprintf(&sb, " %s %s %d", a20(w), fresh.GetBalance(w).String(), fresh.GetNonce(w))
+		}
+		observedBody[hex.EncodeToString(tx.Hash.Bytes())] = sb.String()
+	}
+}
+
 func txTokens(r *hx.Rng, x TxS, watch map[common.Address]bool) string {
 	src := common.HexToAddress(x.Source)
 	fa := common.HexStringToAddress(x.Source)
@@ -317,6 +413,20 @@ func txTokens(r *hx.Rng, x TxS, watch map[common.Address]bool) string {
 	sn := new(big.Int).SetBytes(common.FromHex(x.Source))
 	var sb strings.Builder
 	fmt.Fprintf(&sb, " %s %d %d %d %s %s %s %s", x.Hash, x.Req, x.Nonce, x.Type, hx.Hex([]byte(x.Source)), a20(src), a20(fa), hx.Hex(sn.Bytes()))
+	if x.Type == types.TransactionTypeMinerRefund {
+		var d struct{ Amount, MinerId string }
+		if err := json.Unmarshal(utility.StrToBytes(x.Data), &d); err != nil {
+			return sb.String() + " j " + hx.Hex([]byte(x.Data))
+		}
+		amt := "x"
+		if v, err := strconv.ParseUint(d.Amount, 10, 64); err == nil {
+			amt = strconv.FormatUint(v, 10)
+		}
+		return sb.String() + " r " + amt + " " + hx.Hex(common.FromHex(d.MinerId))
+	}
+	if ob, ok := observedBody[x.Hash]; ok {
+		return sb.String() + ob
+	}
 	kind, ts := decodeExtra(x.Extra)
 	switch kind {
 	case "e":
@@ -366,8 +476,15 @@ func sortedEsc(m map[escKey]bool) []escKey {
 	return l
 }
 
-func dump(st *account.AccountDB, watch []common.Address, wesc []escKey) string {
-	var a, e []string
+func minerDB(t byte) common.Address {
+	if t == common.MinerTypeProposer {
+		return common.ProposerDBAddress
+	}
+	return common.ValidatorDBAddress
+}
+
+func dump(st *account.AccountDB, watch []common.Address, wesc []escKey, miners []MinerS) string {
+	var a, e, m []string
 	for _, w := range watch {
 		a = append(a, fmt.Sprintf("%s:%s:%d", a20(w), st.GetBalance(w).String(), st.GetNonce(w)))
 	}
@@ -375,81 +492,62 @@ func dump(st *account.AccountDB, watch []common.Address, wesc []escKey) string {
 		v := new(big.Int).SetBytes(st.GetData(escrowAddr(k.h), k.id.Bytes()))
 		e = append(e, fmt.Sprintf("%d:%s:%s", k.h, a20(k.id), v.String()))
 	}
-	return "st=" + strings.Join(a, ",") + " esc=" + strings.Join(e, ",")
+	// registry as stored: id key (alive), stake key, account key, status key (else the JSON status)
+	for _, mi := range miners {
+		db, id := minerDB(mi.Type), unhex(mi.Id)
+		k1 := common.Sha256(id)
+		k2 := common.Sha256(k1)
+		k3 := common.Sha256(k2)
+		alive := 0
+		if len(st.GetData(db, id)) > 0 {
+			alive = 1
+		}
+		stake := utility.ByteToUInt64(st.GetData(db, k1))
+		acct := "-"
+		if b := st.GetData(db, k2); len(b) > 0 {
+			acct = a20(common.BytesToAddress(b))
+		}
+		status := mi.Status
+		if b := st.GetData(db, k3); len(b) == 1 {
+			status = b[0]
+		}
+		m = append(m, fmt.Sprintf("%s:%d:%d:%s:%d:%d", new(big.Int).SetBytes(id).String(), mi.Type, stake, acct, status, alive))
+	}
+	return "st=" + strings.Join(a, ",") + " esc=" + strings.Join(e, ",") + " mi=" + strings.Join(m, ",")
 }
 
-// rewardTokens recomputes the inputs of calculateRewardPerBlock's loops from the scenario's miner
-// table with the implementation's own float/big conversions (uninterpreted leaves of the model).
+// rewardTokens: what the model needs besides its own registry: getTotalReward(height) as a float64
+// bit pattern (math.Pow is the one float function the model does not compute), GetRewardBlocks,
+// castor id, group members.  All shares are computed by the model (Model/RewardFloat.lean).
 func rewardTokens(sc *Scenario, watch map[common.Address]bool, wesc map[escKey]bool) string {
-	if len(sc.Group) == 0 {
-		return " x"
-	}
-	height := sc.Height
-	total := service.GetTotalReward(height)
-	rp := utility.Float64ToBigInt(total * common.ProposerReward)
-	castor := common.Address{}
+	nh := service.RewardCalculatorImpl.NextRewardHeight(sc.Height)
 	for _, m := range sc.Miners {
-		if m.Type == common.MinerTypeProposer && sc.Castor != "" && m.Id == sc.Castor {
-			castor = common.BytesToAddress(unhex(m.Account))
-		}
-	}
-	other := total * common.AllProposerReward
-	var tot uint64
-	for _, m := range sc.Miners {
-		if m.Type == common.MinerTypeProposer && m.Status == common.MinerStatusNormal && height >= m.ApplyHeight {
-			tot += m.Stake
-		}
-	}
-	nh := service.RewardCalculatorImpl.NextRewardHeight(height)
-	var sb strings.Builder
-	var ps []string
-	for _, m := range sc.Miners {
-		if tot != 0 && m.Type == common.MinerTypeProposer && m.Status == common.MinerStatusNormal && height >= m.ApplyHeight {
-			d := utility.Float64ToBigInt(float64(m.Stake) / float64(tot) * other)
-			ac := common.BytesToAddress(unhex(m.Account))
-			ps = append(ps, a20(ac)+" "+d.String())
-			watch[ac] = true
-			wesc[escKey{nh, ac}] = true
-		}
-	}
-	watch[castor] = true
-	wesc[escKey{nh, castor}] = true
-	fmt.Fprintf(&sb, " %d %s %s %d", nh, a20(castor), rp.String(), len(ps))
-	for _, p := range ps {
-		sb.WriteString(" " + p)
-	}
-	// validators: GetValidatorsStake merges members by account
-	type vs struct {
-		a common.Address
-		s uint64
-	}
-	var order []common.Address
-	sum := map[common.Address]uint64{}
-	var vtot uint64
-	for _, id := range sc.Group {
-		for _, m := range sc.Miners {
-			if m.Type == common.MinerTypeValidator && m.Id == id && m.Stake != 0 {
-				ac := common.BytesToAddress(unhex(m.Account))
-				if _, ok := sum[ac]; !ok {
-					order = append(order, ac)
-				}
-				sum[ac] += m.Stake
-				vtot += m.Stake
-			}
-		}
-	}
-	if vtot == 0 {
-		order = nil
-	}
-	fmt.Fprintf(&sb, " %d", len(order))
-	rv := total * common.ValidatorsReward
-	for _, ac := range order {
-		d := utility.Float64ToBigInt(float64(sum[ac]) / float64(vtot) * rv)
-		fmt.Fprintf(&sb, " %s %s", a20(ac), d.String())
+		ac := common.BytesToAddress(unhex(m.Account))
 		watch[ac] = true
 		wesc[escKey{nh, ac}] = true
 	}
-	return sb.String()
+	wesc[escKey{nh, common.Address{}}] = true
+	// where a miner refund of this block is scheduled (now + 36000) and, to catch a moved
+	// schedule, the neighbouring candidates
+	for _, m := range sc.Miners {
+		ac := common.BytesToAddress(unhex(m.Account))
+		for _, d := range []uint64{36000, 18000, 36000 - 50, 5000} {
+			wesc[escKey{sc.Height + d, ac}] = true
+		}
+	}
+	castor := "-"
+	if sc.Castor != "" {
+		castor = sc.Castor
+	}
+	s := fmt.Sprintf(" F %d %d %s", math.Float64bits(service.GetTotalReward(sc.Height)), common.GetRewardBlocks(), castor)
+	if len(sc.Group) == 0 {
+		return s + " x"
+	}
+	s += fmt.Sprintf(" %d", len(sc.Group))
+	for _, id := range sc.Group {
+		s += " " + id
+	}
+	return s
 }
 
 // emitScenario: reset, parent state, watch lists, one block op answered by the real executor.
@@ -490,12 +588,32 @@ func emitScenario(out *hx.Out, r *hx.Rng, sc *Scenario) {
 		watch[id] = true
 		out.Emit(fmt.Sprintf("esc %d %s %s", e.H, a20(id), e.V), "ok")
 	}
+	for _, mi := range sc.Miners {
+		ac := common.BytesToAddress(unhex(mi.Account))
+		watch[ac] = true
+		out.Emit(fmt.Sprintf("miner %s %d %d %s 1 %d %d", mi.Id, mi.Type, mi.Stake, a20(ac), mi.Status, mi.ApplyHeight), "ok")
+	}
 	applyFlags(sc, sc.Height-1, false)
+	// first pass over the interpreted transactions fixes the watch list, then the EVM
+	// transactions are observed on it
+	observedBody = map[string]string{}
+	for _, x := range sc.Txs {
+		if !isEvmType(x.Type) {
+			txTokens(hx.NewRng(1), x, watch)
+		} else {
+			watch[common.HexToAddress(x.Source)] = true
+			watch[common.HexStringToAddress(x.Source)] = true
+			if x.Target != "" {
+				watch[common.HexToAddress(x.Target)] = true
+			}
+		}
+	}
+	rw := rewardTokens(sc, watch, wesc)
+	observeOpaque(sc, sortedAddrs(watch))
 	var txs strings.Builder
 	for _, x := range sc.Txs {
 		txs.WriteString(txTokens(r, x, watch))
 	}
-	rw := rewardTokens(sc, watch, wesc)
 	wl, el := sortedAddrs(watch), sortedEsc(wesc)
 	ws := "watch"
 	for _, w := range wl {
@@ -511,8 +629,29 @@ func emitScenario(out *hx.Out, r *hx.Rng, sc *Scenario) {
 	if sc.P004 {
 		p4 = sc.Height
 	}
-	op := fmt.Sprintf("block %d %d %s %s %s%s %d%s", sc.Height, p4, sc.Flags, feeOf(sc).String(), a20(common.FeeAccount), rw, len(sc.Txs), txs.String())
+	b2i := func(b bool) int {
+		if b {
+			return 1
+		}
+		return 0
+	}
+	castor, p25 := "-", "x"
+	if sc.Castor != "" {
+		castor = sc.Castor
+	}
+	if sc.P025 != 0 {
+		p25 = strconv.FormatUint(sc.P025, 10)
+	}
+	if sc.DiffCount != 0 || sc.Working != 0 {
+		out.Emit(fmt.Sprintf("diff %s %d %d", castor, sc.DiffCount, sc.Working), "ok")
+	}
+	op := fmt.Sprintf("block %d %d %s %s %s S %d %d %s %s%s %d%s", sc.Height, p4, sc.Flags, feeOf(sc).String(), a20(common.FeeAccount),
+		b2i(sc.P010), b2i(sc.P019), p25, castor, rw, len(sc.Txs), txs.String())
 	root, t := buildParent(sc)
+	typeOf := map[common.Hash]int32{}
+	for _, x := range sc.Txs {
+		typeOf[common.BytesToHash(unhex(x.Hash))] = x.Type
+	}
 	out.Do(op, func() string {
 		o := execOnce(sc, root, t)
 		var ev, rc []string
@@ -520,7 +659,11 @@ func emitScenario(out *hx.Out, r *hx.Rng, sc *Scenario) {
 			ev = append(ev, hex.EncodeToString(h.Bytes()))
 		}
 		for _, x := range o.receipts {
-			rc = append(rc, fmt.Sprintf("%s:%d:%s", hex.EncodeToString(x.TxHash.Bytes()), x.Status, hx.Hex([]byte(x.Msg))))
+			msg := hx.Hex([]byte(x.Msg))
+			if typeOf[x.TxHash] == types.TransactionTypeMinerRefund {
+				msg = "-" // message text of miner transactions is not modelled
+			}
+			rc = append(rc, fmt.Sprintf("%s:%d:%s", hex.EncodeToString(x.TxHash.Bytes()), x.Status, msg))
 			rcStats[fmt.Sprintf("receipt status=%d %s", x.Status, msgClass(x.Msg))]++
 		}
 		nr := commit(o.st, t)
@@ -528,7 +671,9 @@ func emitScenario(out *hx.Out, r *hx.Rng, sc *Scenario) {
 			return "COMMIT-ROOT-DIFFERS"
 		}
 		fresh, _ := account.NewAccountDB(nr, t)
-		return "ev=" + strings.Join(ev, ",") + " rc=" + strings.Join(rc, ",") + " " + dump(fresh, wl, el)
+		df := fmt.Sprintf(" df=%d:%d", utility.ByteToUInt64(fresh.GetData(common.DifficultyAddress, castorBytes(sc))),
+			utility.ByteToUInt64(fresh.GetData(common.DifficultyAddress, common.TotalWorkingMiners)))
+		return "ev=" + strings.Join(ev, ",") + " rc=" + strings.Join(rc, ",") + " " + dump(fresh, wl, el, sc.Miners) + df
 	})
 }
 
@@ -670,8 +815,14 @@ func genScenario(r *hx.Rng, i int, allowOpaque bool) *Scenario {
 		sc.Accounts = append(sc.Accounts, Acct{a, b.String(), n})
 	}
 	ntx := r.Pick(0, 1, 1, 2, 2, 3, 4, 6, 8, 12)
-	if r.Chance(1, 40) {
-		ntx = 13 + r.Intn(4) // beyond the insertion-sort range: the model answers `unmodelled`
+	if r.Chance(1, 12) {
+		ntx = 13 + r.Intn(28) // beyond the insertion-sort range: modelled when Less is total on the block
+	}
+	// large blocks: mostly "clean" ones on which Less is a strict total order (p023: source number,
+	// nonce, hash; canonical spellings; requestIds 0 or unique), so that the model can answer them
+	clean := ntx > 12 && r.Chance(3, 4)
+	if clean {
+		sc.Flags = sc.Flags[:5] + "1"
 	}
 	next := map[string]uint64{}
 	for k := 0; k < ntx; k++ {
@@ -700,6 +851,13 @@ func genScenario(r *hx.Rng, i int, allowOpaque bool) *Scenario {
 			if allowOpaque {
 				x.Type = 200
 				x.Data = "{"
+				if r.Chance(2, 3) { // a real creation / call (self-destructing, storage writing, failing …)
+					x.Data = contractData(r, initLib(r), valueStr(r))
+					if r.Chance(1, 3) {
+						x.Target = "0x" + poolAddrs[r.Intn(len(poolAddrs))]
+						x.Data = contractData(r, "", valueStr(r))
+					}
+				}
 			}
 		}
 		switch r.Intn(6) {
@@ -718,6 +876,15 @@ func genScenario(r *hx.Rng, i int, allowOpaque bool) *Scenario {
 			x.Req = uint64(1 + r.Intn(4))
 		case 1:
 			x.Req = uint64(100 + k)
+		}
+		if clean {
+			x.Source = "0x" + a
+			if x.Type == 200 {
+				x.Type = 100
+			}
+			if x.Req != 0 {
+				x.Req = uint64(100 + k)
+			}
 		}
 		// extra data
 		switch r.Intn(12) {
@@ -809,6 +976,98 @@ func genScenario(r *hx.Rng, i int, allowOpaque bool) *Scenario {
 		} else if r.Bool() {
 			sc.Castor = "dd0000"
 		}
+		// special heights: the hard-coded validator clean-ups and the difficulty counters
+		if r.Chance(1, 8) {
+			sc.P010 = true
+			for k, id := range []string{"01820ed1304f0484e252ddac1ab5a1e6e16e5ebf89f022c092e8decd69e088e6", "18b97514b118dda8d8a30f16fc6de49ebeac849359e6ffd17b5299a82112eedd", "008825f3184b9f6f0935830c7738d1da3f9dc2a055f99c8c06176f36f5951686"} {
+				if r.Chance(2, 3) {
+					m := MinerS{Id: id, Type: byte(r.Pick(0, 0, 0, 1)), Stake: uint64(400 * (1 + r.Intn(3))), Account: poolAddrs[(k+r.Intn(3))%len(poolAddrs)]}
+					if m.Type == 1 {
+						m.Stake = 2000
+					}
+					sc.Miners = append(sc.Miners, m)
+					if r.Bool() {
+						sc.Group = append(sc.Group, id)
+					}
+				}
+			}
+		}
+		if r.Chance(1, 8) {
+			sc.P019 = true
+			for k, id := range []string{"5437f9dd7171db9d04a8347dca5bf2b7789081631d79d2d7882c1774d2f4d123", "2a17671c5a32175335fa098951ba50a9b4730aea7ecee86df6536297900f5b77"} {
+				if r.Chance(2, 3) {
+					sc.Miners = append(sc.Miners, MinerS{Id: id, Type: 0, Stake: 400, Account: poolAddrs[(k+2)%len(poolAddrs)], Status: byte(r.Pick(0, 0, 2))})
+					sc.Group = append(sc.Group, id)
+				}
+			}
+		}
+		if r.Chance(1, 3) {
+			sc.P025 = sc.Height - uint64(r.Intn(3))
+			if r.Bool() {
+				sc.DiffCount = uint64(1 + r.Intn(5))
+				sc.Working = uint64(1 + r.Intn(4))
+			} else if r.Bool() {
+				sc.Working = uint64(r.Intn(4))
+			}
+		}
+		_ = 0
+		// miner refund transactions: partial / full / too much / unparsable amounts, foreign senders,
+		// unknown ids, several refunds falling on the same height (same and different accounts)
+		funded := map[string]bool{}
+		for _, a := range sc.Accounts {
+			funded[a.Addr] = true
+		}
+		for k := r.Pick(0, 0, 1, 2, 3, 4); k > 0 && len(sc.Miners) > 0 && len(sc.Txs) < 12; k-- {
+			m := sc.Miners[r.Intn(len(sc.Miners))]
+			src := m.Account
+			if r.Chance(1, 6) {
+				src = poolAddrs[r.Intn(len(poolAddrs))]
+			}
+			if !funded[src] && r.Chance(5, 6) {
+				funded[src] = true
+				sc.Accounts = append(sc.Accounts, Acct{src, e18(int64(1 + r.Intn(3))).String(), 0})
+			}
+			amt := ""
+			switch r.Intn(9) {
+			case 0:
+				amt = "18446744073709551615"
+			case 1:
+				amt = strconv.FormatUint(m.Stake, 10)
+			case 2:
+				amt = strconv.FormatUint(m.Stake+1, 10)
+			case 3:
+				amt = "abc"
+			case 4:
+				amt = "0"
+			case 5:
+				amt = strconv.FormatUint(m.Stake-399, 10)
+			default:
+				amt = strconv.Itoa(1 + r.Intn(500))
+			}
+			id := "0x" + m.Id
+			if r.Chance(1, 8) {
+				id = "0xdead00"
+			}
+			d, _ := json.Marshal(map[string]string{"Amount": amt, "MinerId": id})
+			// fully random hash: a miner receipt is recognised by its hash (its message is not compared),
+			// so it must not collide with the shared-prefix hashes of the other transactions
+			x := TxS{Source: "0x" + src, Type: 4, Hash: hex.EncodeToString(r.Bytes(32)), Data: string(d)}
+			if r.Chance(1, 10) {
+				x.Data = "{bad"
+			}
+			if r.Chance(1, 4) {
+				x.Req = uint64(200 + k)
+			}
+			sc.Txs = append(sc.Txs, x)
+		}
+	}
+	// receipts and observed EVM steps are matched to transactions by hash: keep hashes unique
+	seenHash := map[string]bool{}
+	for i := range sc.Txs {
+		for seenHash[sc.Txs[i].Hash] {
+			sc.Txs[i].Hash = hex.EncodeToString(r.Bytes(32))
+		}
+		seenHash[sc.Txs[i].Hash] = true
 	}
 	return sc
 }
@@ -1080,7 +1339,7 @@ func emitSiteOps(out *hx.Out, r *hx.Rng, i int) {
 				service.RefundManagerImpl.Add(data, st)
 				root = commit(st, t)
 				f, _ := account.NewAccountDB(root, t)
-				return dump(f, wl, el)
+				return dump(f, wl, el, nil)
 			})
 		case 2: // CheckAndMove
 			h := heights[r.Intn(len(heights))]
@@ -1088,7 +1347,7 @@ func emitSiteOps(out *hx.Out, r *hx.Rng, i int) {
 				service.RefundManagerImpl.CheckAndMove(h, st)
 				root = commit(st, t)
 				f, _ := account.NewAccountDB(root, t)
-				return dump(f, wl, el)
+				return dump(f, wl, el, nil)
 			})
 		default: // ChangeAssets directly (inside a snapshot, as the executor does)
 			src := poolAddrs[r.Intn(len(poolAddrs))]
@@ -1122,7 +1381,7 @@ func emitSiteOps(out *hx.Out, r *hx.Rng, i int) {
 				}
 				root = commit(st, t)
 				f, _ := account.NewAccountDB(root, t)
-				return o + hx.Hex([]byte(msg)) + " " + dump(f, wl, el)
+				return o + hx.Hex([]byte(msg)) + " " + dump(f, wl, el, nil)
 			})
 		}
 	}
@@ -1132,20 +1391,28 @@ func emitSortOp(out *hx.Out, r *hx.Rng) {
 	sc := &Scenario{Height: 50, Flags: genFlags(r)}
 	applyFlags(sc, 49, false)
 	n := r.Pick(0, 1, 2, 3, 5, 8, 12, 12)
-	if r.Chance(1, 20) {
-		n = 13 + r.Intn(8)
+	if r.Chance(1, 4) {
+		n = 13 + r.Intn(50)
+	}
+	clean := n > 12 && r.Chance(3, 4)
+	if clean {
+		sc.Flags = sc.Flags[:5] + "1"
+		applyFlags(sc, 49, false)
 	}
 	var txs []*types.Transaction
 	op := fmt.Sprintf("sort %s %d", sc.Flags, n)
 	for i := 0; i < n; i++ {
 		a := poolAddrs[r.Intn(3)]
 		src := "0x" + a
-		if r.Chance(1, 4) {
+		if r.Chance(1, 4) && !clean {
 			src = spell(r, a)
 		}
 		tx := &types.Transaction{Source: src, Nonce: uint64(r.Intn(3)), Hash: common.BytesToHash(unhex(randHash(r)))}
 		if r.Chance(1, 4) {
 			tx.RequestId = uint64(1 + r.Intn(3))
+			if clean {
+				tx.RequestId = uint64(100 + i)
+			}
 		}
 		txs = append(txs, tx)
 		sn := new(big.Int).SetBytes(common.FromHex(src))
